@@ -31,6 +31,39 @@ CLAIMS.update({
     ),
 })
 
+CLAIMS.update({
+    "C11": dict(
+        text="Deductive proof from the real source: AllocOpRewrite.match_and_rewrite as a whole (view of memref.alloc, real get_bound_ops/get_step_ops, IR-term denotation): for every element (witness digits) of every enumerated layout shape (row-major rank<=4; TSL rank x depth <=4 incl. dynamic outer bounds/steps, offsets, 3 element widths) the element's last byte lies inside den(size operand of snax.alloc), for ALL integer steps/bounds/offsets/run-time sizes; StaticAllocs.match_and_rewrite UNBOUNDED as a data-structure invariant with ghost history (aligned, monotone, minimal padding, inside the window, bump == end of range, raising only when the aligned request does not fit) from which disjointness of all ranges follows by induction; create_memref_struct positions. Counter-models replay on real xDSL ops.",
+        note="Trusted: as C03 plus arith denotations and irdl/rewriter/llvm stubs; the induction 'invariant => all ranges ever handed out are disjoint' is a paper lemma. NOT covered: MiniMallocate (lifetimes through casts/nested uses; its solver minimalloc is not installed) and DynamicAllocs (C runtime) - the 'never handed to another buffer while live' clause is therefore only covered for the static mode, where nothing is ever freed.",
+        design_ref="DESIGN.md section 3 C11",
+    ),
+    "C17": dict(
+        text="Deductive proof from the real source, UNBOUNDED over loop bounds/steps: ChangeForStep keeps the trip count and the index value of every iteration (semantic clause over the block argument's run-time value), or does not rewrite; MergeForLoops: merged bound = ub*ub_parent, indices rebuilt as k div ub / k mod ub, the lexicographic bijection lemma (NIA), inner body inlined, and every side-effecting op executes as often as before (fails on the unchanged tree: known finding F14); get_subview_dim (nested function, mechanically extracted) returns the size operand of the queried dimension for all static/dynamic masks up to rank 4.",
+        note="Trusted: as C03 plus scf/arith stubs, ghost 'impure' flag for ops. NOT covered: LoopHoistPureOperations and the rest of MoveMemrefDims (movement legality is a dominance question on the IR).",
+        design_ref="DESIGN.md section 3 C17",
+    ),
+    "C07": dict(
+        text="Deductive proof from the real source of the LOCAL SOUNDNESS CONDITIONS of the must-analysis (post-fixpoint characterisation): state_intersection, infer_state_of for each owner kind (setup with/without incoming state, scf.if result, scf.for result, loop-carried block argument, other block argument; recursive calls through the function's own contract with arbitrary symbolic states), calc_if_state_delta (incl. its mutation frame), has_accfg_effects (structural recursion through its own contract). States are maps over a small field universe with SYMBOLIC presence and SSA-value identities. The loop-head condition fails on the unchanged tree (known finding F01); the zero-trip loop-result condition was repaired (fix).",
+        note="Trusted: the paper lemma 'local conditions at every state-typed value => the assumed state is a subset of the real state on every execution'; pointwise-in-the-field argument for the 2..3-field universe; SSA identity modelled by symbolic tags. NOT covered: _weave_states_in_region (IR plumbing that threads the states; effects nested in regions).",
+        design_ref="DESIGN.md section 3 C07",
+    ),
+    "C01": dict(
+        text="Deductive proof from the real source, per shape with symbolic field names/values/states: each dedup rewrite preserves the register file after the rewritten setups GIVEN a sound inferred state (C07): SimplifyRedundantSetupCalls (registers after the reduced setup == after the original, same accelerator and incoming state, never rewrites when nothing is dropped), MergeSetupOps (only same-accelerator setups with side-effect-free ops in between; merged == sequential composition), ElideEmptySetupOps, PullSetupOpsOutOfLoops (a field is hoisted only if EVERY setup in the loop, nested ones included, writes the same value defined outside the loop; hoisted setup chained on the loop's initial state) and the region walk it relies on. Inherits C07's loop-head finding F01.",
+        note="Trusted: register semantics rho (+) params; is_valid(setup): each field named at most once (the form every lowering emits); val_is_defined_in_block and is_side_effect_free are ghost flags; the composition over the greedy driver and HoistSetupCallsIntoConditionals' legality test are NOT covered (paper argument only).",
+        design_ref="DESIGN.md section 3 C01",
+    ),
+    "C08": dict(
+        text="Deductive proof from the real source over an ENUMERATED family of configuration structures with all stride-pattern contents, pointers, zero-operand flags and kernel attributes SYMBOLIC: for SNAXStreamer (all flag words for <=3 temporal dims x 1..2 spatial x every subset of {a,c,b,t}; single non-n flags for 4..6 dims; multi-streamer structures), xDMA (7 configurations x 4 kernel bodies x zero-operand variants), GEMMX (7 kernel bodies x n in {4,8,16}; streamer part through its own contract; bit-packing in exact bit-vector semantics; K*N*M == steps of the A stream), ALU and HWPE: exactly one value per declared field, in the declared order, each with the meaning the field name states (padding with bound 1 / stride 0, reuse collapse).",
+        note="Trusted: the oracle is the field NAME (and the comments in the gemmx field list); views of StreamingRegionOp / dart.generic / kernel ops through the irdl stub; 32-bit words for packing, other constants mathematical. Open findings F08 (xDMA enabled_chan), F10 (hwpe naming swap), F17 (alu multi-dim loop bound); four defects repaired by fix commits. PHS switch values are NOT covered.",
+        design_ref="DESIGN.md section 3 C08",
+    ),
+    "C04": dict(
+        text="Deductive proof from the real source: register maps of alu (4 option variants), gemmx (n in {4,8,16}), xdma, hwpe are total on the declared fields and injective incl. barrier and the two reserved status registers; the address helpers hand out consecutive registers from ANY (symbolic) base address, xDMA's multicast window holds no field; lower_acc_setup/launch emit exactly one CSR write per field to its declared (symbolic) address in program order (index values through one cast); the four await lowerings access the declared barrier/launch registers; RoCC create_pairs / combine_pairs_to_ops / lower_acc_setup give every instruction the values in effect for both source fields (previous state through infer_state_of's contract; raising only when a partner is unknown); DeleteAllStates drops exactly the state-typed operands/results and keeps the others' order and result mapping.",
+        note="Trusted: event semantics of inline asm csrw/csrr; set iteration order (sorted) for RoCC instruction sets; RoCC soundness inherits C07 (finding F01). NOT covered: order of lowered ops relative to surrounding ops, block-argument erasure deferred to the driver's revisit, gemmx channel-wise launch variant, PHS.",
+        design_ref="DESIGN.md section 3 C04",
+    ),
+})
+
 _PENDING = "check not built yet in this round (planned in DESIGN.md section 3); not claimed"
 NOT_APPLICABLE = {f"C{i:02d}": _PENDING for i in range(1, 21)}
 NOT_APPLICABLE.update({
